@@ -114,6 +114,7 @@ EVENTS = ([("build", k) for k in KINDS] +
            ("parse", "n+n"), ("parse", "n+"), ("parse", ""), ("parse", "+n+"),
            ("parse", "n+x+n"),
            ("parse-boom-action", "n+n"), ("parse-boom-recognizer", "n+!"),
+           ("parse-boom-recognizer", "n!"),
            ("from_string_ok",), ("from_string_bad_syntax",),
            ("from_string_bad_semantic",)])
 
